@@ -42,6 +42,10 @@ def cfgs(tier):
         ("reads", dict(NG=1, NS=2, PreJoin="TRUE", Acts=RD, MaxSteps=5 if q else 7), 1 if q else 4),
         ("unicast-to-peer", dict(NR=2, NG=1, NS=2, Binds='{"solo", "any"}', Acts='{"mem", "send", "uni", "rd", "sync", "chain"}',
                                  MaxSteps=3 if q else 4), 4 if q else 6),
+        ("corrupt-datagrams-peer", dict(NR=1, NG=1, NS=1, Binds='{"solo"}', Acts='{"send", "uni", "rd", "corrupt", "setbuf"}',
+                                        MaxSteps=4 if q else 5), 1),
+        ("corrupt-datagrams-pc", dict(Kind='"pc"', Binds='{"lo"}', NS=1, NG=1, Acts='{"send", "rd", "corrupt", "readall"}',
+                                      MaxSteps=4 if q else 5), 1),
         ("reads-2rcv", dict(NR=2, NG=1, PreJoin="TRUE", Acts=RD, MaxSteps=4 if q else 5), 1 if q else 2),
         ("burst-pc", dict(Kind='"pc"', Binds='{"lo"}', NS=2, NG=1, Acts=BURST, MaxSteps=3 if q else 4), 2 if q else 4),
         ("burst-mc", dict(NR=2, NG=1, PreJoin="TRUE", Acts=BURST, MaxSteps=3 if q else 4), 2 if q else 4),
